@@ -82,6 +82,12 @@ def judge_scans(ctx, stream, cases):
             if flat != a.get("M"):
                 ctx.broken.append({"kind": "correspondence-broken", "what": "scan error differs from model", "impl": flat, "model": a.get("M")})
             continue
+        if any(v.startswith(u + ".") for u, v in F[1]):
+            # a module file next to a package of the same name importing a module BELOW itself (b.py: from proj.b.pkg import util):
+            # in the quotient this is an import from a node to its own child, which the graph cannot hold next to the hierarchy
+            # edge. Observed on the unchanged tree at seed 4 (DESIGN 11.3c, wave 10); not judged here
+            stream.count("not judged: import from a module to its own descendant (file/package twin)")
+            continue
         keep = case["k"] + case["mp"].count("/")          # k levels below module_path
         wn = {trunc(n, keep) for n in F[0]}
         wi = {(trunc(u, keep), trunc(v, keep)) for u, v in F[1] if trunc(u, keep) != trunc(v, keep)}
